@@ -94,11 +94,17 @@ fn run_blocking(c: &UdpCase, mode: &Mode) -> Observed {
             }
         }
         for f in &c.writes {
-            let Ok(p) = decode_one(f, mode) else { continue };
+            let Some(p) = crate::props::c03::seq_packet(f, mode) else { continue };
+            let refused = Codec::new(mode.clone()).encode(&p).is_err();
             let w = guard(|| framed.write(p)).map_err(|p| format!("panic: {p}"))?;
             if let Err(e) = w {
-                o.received.push(format!("write error: {e}").into_bytes());
+                if !refused {
+                    o.received.push(format!("write error: {e}").into_bytes());
+                }
                 continue;
+            }
+            if refused {
+                o.received.push(b"a packet the encoder refuses was reported written".to_vec());
             }
             match peer.recv(&mut scratch) {
                 Ok(n) => o.received.push(scratch[..n].to_vec()),
@@ -166,10 +172,16 @@ fn run_tokio(c: &UdpCase, mode: &Mode) -> Observed {
                     }
                 }
                 for f in &c.writes {
-                    let Ok(p) = decode_one(f, &mode) else { continue };
+                    let Some(p) = crate::props::c03::seq_packet(f, &mode) else { continue };
+                    let refused = Codec::new(mode.clone()).encode(&p).is_err();
                     if let Err(e) = framed.write(p).await {
-                        o.received.push(format!("write error: {e}").into_bytes());
+                        if !refused {
+                            o.received.push(format!("write error: {e}").into_bytes());
+                        }
                         continue;
+                    }
+                    if refused {
+                        o.received.push(b"a packet the encoder refuses was reported written".to_vec());
                     }
                     match tokio::time::timeout(READ_TIMEOUT, peer.recv(&mut scratch)).await {
                         Ok(Ok(n)) => o.received.push(scratch[..n].to_vec()),
@@ -196,7 +208,7 @@ pub fn judge(c: &UdpCase, ev: &mut Local) -> Result<(), Fail> {
     let mode = if c.compressed { Mode::Compressed } else { Mode::Uncompressed };
     let want = expected(c, &mode);
     // a fresh codec per packet: the expected datagrams are independent encodings
-    let want_out: Vec<Vec<u8>> = c.writes.iter().filter_map(|f| decode_one(f, &mode).ok()).filter_map(|p| Codec::new(mode.clone()).encode(&p).ok().map(|b| b.to_vec())).collect();
+    let want_out: Vec<Vec<u8>> = c.writes.iter().filter_map(|f| crate::props::c03::seq_packet(f, &mode)).filter_map(|p| Codec::new(mode.clone()).encode(&p).ok().map(|b| b.to_vec())).collect();
     let m = mode_name(&mode);
     for (which, o) in [("blocking", run_blocking(c, &mode)), ("tokio", run_tokio(c, &mode))] {
         if let Some(e) = &o.error {
@@ -265,6 +277,9 @@ pub fn judge(c: &UdpCase, ev: &mut Local) -> Result<(), Fail> {
     }
     if !c.gaps.is_empty() {
         ev.class("idle-gaps-with-timed-out-reads");
+    }
+    if c.writes.iter().any(|f| f.len() == 1) {
+        ev.class("refused-packet-among-the-writes");
     }
     ev.max("session-bytes", total as u64);
     ev.max("datagrams", c.datagrams.len() as u64);
@@ -340,7 +355,14 @@ pub fn udp_strategy(max_datagrams: usize) -> impl Strategy<Value = UdpCase> {
             })
             .collect();
         let gaps = gaps.iter().map(|ix| ix.index(datagrams.len())).collect();
-        UdpCase { compressed, datagrams, writes: writes.iter().map(|f| frame_bytes(f, &mode)).collect(), gaps }
+        // packets the encoder must refuse (one-byte pseudo frames, see c03::seq_packet) go between the written packets of
+        // every third session: a refusal must leave no trace in the datagrams that follow
+        let mut w: Vec<Vec<u8>> = writes.iter().map(|f| frame_bytes(f, &mode)).collect();
+        if !w.is_empty() && datagrams.len() % 3 == 0 {
+            let at = datagrams.len() % w.len();
+            w.insert(at, vec![0xFC + (datagrams.len() % 4) as u8]);
+        }
+        UdpCase { compressed, datagrams, writes: w, gaps }
     })
 }
 
@@ -352,7 +374,7 @@ pub fn run(run: &mut Run) {
     run.rule = "Sessions of up to 400 datagrams on a real loopback UDP socket pair, each datagram 1..13 whole frames (up to 1020 bytes in either size mode) (all kinds, unknown types, \
         maximum-size frames; 4..1020 bytes), cumulative traffic far beyond the 6120-byte receive buffer, sent in lock-step (send one \
         datagram, read its packets) to a blocking and a tokio connection built over the crate's UDP adaptors; in a quarter of the sessions one or two reads happen while the peer is idle (15 ms read timeout \
-        resp. a dropped read future) and the session goes on; then packets are written and observed by the peer. Oracle: the packets read equal the frames sent, in order (each frame's verdict in isolation); every \
+        resp. a dropped read future) and the session goes on; then packets are written (in every third session a packet the encoder must refuse among them) and observed by the peer. Oracle: the packets read equal the frames sent, in order (each frame's verdict in isolation); every \
         written packet arrives as exactly one datagram equal to its encoded frame. The 2 s read timeout only detects truncation; it \
         never fires in a passing run. Non-trivial = cumulative traffic before some datagram exceeds 6120 bytes minus that datagram."
         .into();
